@@ -130,3 +130,14 @@ impl Lattice {
         &&& forall|e: int| 1 <= e <= len ==> (#[trigger] self.ends[e]).len() == 0
     }
 }
+
+impl Lattice {
+    /// `self` grew out of `a` by appending nodes that all start at (sn, sw) and end after sw
+    pub open spec fn extends(&self, a: &Lattice, sn: int, sw: int) -> bool {
+        &&& self.len_char == a.len_char && self.ends.len() == a.ends.len() && self.eos == a.eos
+        &&& forall|e: int| 0 <= e <= sw && e < self.ends.len() ==> #[trigger] self.ends[e] == a.ends[e]
+        &&& forall|e: int| 0 <= e < self.ends.len() ==> a.ends[e]@.is_prefix_of(#[trigger] self.ends[e]@)
+        &&& forall|e: int, k: int| 0 <= e <= self.len_char && a.ends[e].len() <= k < self.ends[e].len() ==>
+               (#[trigger] self.ends[e][k]).start_node as int == sn && self.ends[e][k].start_word as int == sw && sw < e
+    }
+}
